@@ -197,6 +197,13 @@ def generate(repo: str) -> str:
     lc = {k: _int(getattr(mod, 'FLOW_LENGTH_' + k), k) for k in
           ('EXTENDED_MASK', 'EXTENDED_VALUE', 'LOWER_MASK', 'EXTENDED_SHIFT', 'COMPACT_MAX', 'EXTENDED_MAX')}
     tests = encode_length_tests(tree, {'FLOW_LENGTH_' + k for k in lc})
+    # Model_Flow writes the masks as arithmetic (b / 16 mod 4, b mod 16, l0 / 16 * 16, l0 mod 16): pin them
+    if (c['EOL'], c['AND'], c['LEN'], c['OPERATOR']) != (0x80, 0x40, 0x30, 0x4F):
+        raise Untranslatable('operator byte layout changed: the hand model hard-codes EOL/AND/LEN/OPERATOR positions')
+    if (lc['EXTENDED_MASK'], lc['EXTENDED_VALUE'], lc['LOWER_MASK']) != (0xF0, 0xF0, 0x0F):
+        raise Untranslatable('extended length masks changed: the hand model hard-codes them')
+    if lc['EXTENDED_SHIFT'] not in (8, 16) or lc['COMPACT_MAX'] != 240 or lc['EXTENDED_MAX'] != 4095:
+        raise Untranslatable('length thresholds changed')
     unpack_length_shape(tree)
     parse_shape(tree)
 
